@@ -178,6 +178,74 @@ func generatePosts() {
 		}
 	}
 
+	// ---- sessions: one user loaded as several independent records ----------------------------------------------
+	postAs := func(sess string, q *request) {
+		do("postas " + hx.Hex([]byte(sess)) + " " + strings.Join(strings.Fields(q.line())[1:3], " ") + " " + strings.Join(strings.Fields(q.line())[4:], " "))
+	}
+	load := func(sess, u string) {
+		id := make([]byte, ptttype.IDLEN+1)
+		copy(id, u)
+		do("load " + hx.Hex([]byte(sess)) + " " + hx.Hex(id))
+	}
+	mk := func(u, b string, k int) *request {
+		q := newReq(u, b)
+		q.title = []byte("session post " + string(rune('a'+k%26)))
+		q.lines = [][]byte{[]byte("x")}
+		return q
+	}
+	// two sessions loaded up front; A posts k times, B posts, A posts again; then a reloading post
+	for _, ub := range [][2]string{{"CodingMan", "WhoAmI"}, {"test0", "EditExp"}, {"SYSOP", "WhoAmI"}, {"CodingMan", "Note"}} {
+		for k := 0; k <= 3; k++ {
+			reset()
+			load("A", ub[0])
+			load("B", ub[0])
+			for i := 0; i < k; i++ {
+				postAs("A", mk(ub[0], ub[1], i))
+			}
+			postAs("B", mk(ub[0], ub[1], 7))
+			postAs("A", mk(ub[0], ub[1], 8))
+			post(mk(ub[0], ub[1], 9))
+			postAs("B", mk(ub[0], ub[1], 10))
+		}
+	}
+	// a session loaded, the counter changed by the other path (bbs.CreateArticle reloads), then posting through it
+	for _, ub := range [][2]string{{"CodingMan", "WhoAmI"}, {"Kahou2", "EditExp"}} {
+		reset()
+		load("S", ub[0])
+		post(mk(ub[0], ub[1], 0))
+		post(mk(ub[0], "WhoAmI", 1))
+		postAs("S", mk(ub[0], ub[1], 2))
+		postAs("S", mk(ub[0], ub[1], 3))
+	}
+	nSess := 10
+	if run.Thorough() {
+		nSess = 200
+	}
+	for h := 0; h < nSess; h++ {
+		reset()
+		names := []string{"A", "B", "C"}
+		owner := map[string]string{}
+		us := []string{"CodingMan", "test0", "SYSOP", "Kahou2"}
+		for _, n := range names {
+			owner[n] = us[r.Intn(2+r.Intn(3))]
+			load(n, owner[n])
+		}
+		for s := 0; s < 4+r.Intn(10); s++ {
+			n := names[r.Intn(len(names))]
+			bs := []string{"WhoAmI", "EditExp", "Note"}
+			q := mk(owner[n], bs[r.Intn(len(bs))], s)
+			q.lines = randBody(r, 4)
+			switch r.Intn(5) {
+			case 0:
+				post(q)
+			case 1:
+				load(n, owner[n])
+			default:
+				postAs(n, q)
+			}
+		}
+	}
+
 	// ---- write failures: the article file cannot grow beyond the limit -----------------------------------------
 	nFail := 10
 	if run.Thorough() {
@@ -235,6 +303,7 @@ func generatePosts() {
 		"post 57686f416d49 57686f416d49 436f64696e674d616e00000000 rr 312e322e332e34 - - 6869 .",
 		"post 57686f416d49 57686f416d49 436f64696e674d616e00000000 - 312e322e332e34 - - 6869 6g",
 		"post 57686f416d49 57686f416d49 436f64696e674d616e00 - 312e322e332e34 - - 6869 .",
+		"load", "load 41 zz", "postas 5a 57686f416d49 57686f416d49 - 312e322e332e34 - - 6869 .",
 		"post 57686f416d50 57686f416d49 436f64696e674d616e00000000 - 312e322e332e34 - - 6869 .", "consts 1"} {
 		do(l)
 	}
